@@ -136,7 +136,8 @@ def build(env, spec):
             if tp.get("release") is not None and not is_src:
                 trel = val(env, tp["release"], f"rel_{tname}", 0, T)
             tdl = dl if tp.get("deadline") is None else val(env, tp["deadline"], f"dl_{tname}", 0, 4 * T)
-            t = Task(name=tname, task_graph=gname, job=job, deadline=ET(tdl), timestamp=0,
+            # `operator` / `timestamp`: successive invocations of one operator share the Task name (TaskLoader-style graphs)
+            t = Task(name=tp.get("operator", tname), task_graph=gname, job=job, deadline=ET(tdl), timestamp=tp.get("timestamp", 0),
                      release_time=ET(trel), _logger=NULL)
             tmap[tname] = t
             W.tasks[tname] = t
@@ -671,7 +672,13 @@ def _wrap_all():
         def w(self, *a, **k):
             m = MON
             old = self._state
-            r = orig(self, *a, **k)
+            try:
+                r = orig(self, *a, **k)
+            except Exception:
+                if m is not None and name == "start":
+                    # the repository's own tripwire fired (e.g. start before release): the attempted start is what C02 judges
+                    m.task_start(self, a[0] if a else k.get("time"))
+                raise
             if m is not None:
                 m.transition(name, self, old, self._state, time_of(self, a, k))
                 if name == "start":
